@@ -17,6 +17,7 @@
   was built from; needs C03's run-level composition) — checked by the harness slicing oracle.
 -/
 import GherkinVerif.Lemmas.Locations
+import GherkinVerif.KDecide
 namespace GV
 
 /-! ### lines -/
@@ -155,11 +156,11 @@ theorem C04_tag_name_partial (l : Str) (hs : lineStartsWith l [64] = true) (ts :
 /-- F5 witness: the line `@ a` has the single tag `@a` at column 1, and the line does not start
     with `@a`. -/
 example : lineTags (lit "@ a") = .ok [(1, lit "@a")] ∧ startsWith (lit "@a") (lit "@ a") = false := by
-  decide +kernel
+  kdecide
 
 /-- The hypothesis `hs` of the tag theorems is needed (it holds whenever `match_TagLine` calls
     `tags`): on a line not starting with `@` the first column is not that of an `@`. -/
-example : lineTags (lit "x@a") = .ok [(1, lit "@a")] := by decide +kernel
+example : lineTags (lit "x@a") = .ok [(1, lit "@a")] := by kdecide
 
 /-- A tag containing whitespace: the error column holds the offending tag's `@`, and the text
     after it, stripped, contains whitespace. -/
@@ -216,14 +217,14 @@ theorem C04_unexpected_loc (row : StateRow) (t : Token) :
 /-! ### non-vacuity -/
 
 /-- a CRLF source with an unterminated last line -/
-example : splitLines (lit "a\r\n\nb") = [lit "a\r\n", lit "\n", lit "b"] := by decide +kernel
+example : splitLines (lit "a\r\n\nb") = [lit "a\r\n", lit "\n", lit "b"] := by kdecide
 
 /-- tab + no-break space + em space indentation, a non-BMP character in a tag, a comment -/
 example : lineTags ([9, 0xA0, 0x2003] ++ lit "@a𝄞 @b\t@c #x\n") =
-    .ok [(4, lit "@a𝄞"), (8, lit "@b"), (11, lit "@c")] := by decide +kernel
+    .ok [(4, lit "@a𝄞"), (8, lit "@b"), (11, lit "@c")] := by kdecide
 
 /-- cells: padding, an escaped pipe, an all-blank cell (column of the closing pipe) -/
-example : Spec.cells (lit "\t |  a\\|b |   |\n") = [(6, lit "a|b"), (15, [])] := by decide +kernel
+example : Spec.cells (lit "\t |  a\\|b |   |\n") = [(6, lit "a|b"), (15, [])] := by kdecide
 
 /-- a matched keyword line: column 3 -/
 example :
@@ -232,6 +233,6 @@ example :
     let l := lit "\t Ability:  x \r\n"
     let out := matchLine [] .FeatureLine μ { line := some l, lineNo := 1 } l
     out.tok.col = some 3 ∧ out.tok.keyword = some (lit "Ability") ∧ out.tok.text = some (lit "x") := by
-  decide +kernel
+  kdecide
 
 end GV
